@@ -2,6 +2,7 @@
 //! application call log and public accessors only.
 
 pub mod access;
+pub mod apps;
 pub mod dp;
 pub mod ring;
 
